@@ -3,13 +3,14 @@
 # 1. confirms in a scratch worktree: suite passes with the patch, TestDemo passes without and fails with it
 # 2. applies the patch to /repo, runs the quick checks, reverts, prints a summary line per check
 set -u
-DEMO_FLAGS="${DEMO_FLAGS:-}"
+DEMO_FLAGS="${DEMO_FLAGS:-}"; [ -z "$DEMO_FLAGS" ] && [ -f "$1/demo_flags" ] && DEMO_FLAGS=$(cat "$1/demo_flags")
 SRC="$1"; ID="$2"; shift 2; CHECKS="$*"
 export GOFLAGS=-mod=mod GOPROXY=off GOSUMDB=off GOTOOLCHAIN=local
 # base: the newest commit of /repo on which the patch applies (seeded changes were written against the HEAD of their day;
 # later fix: commits may touch the same lines)
-BASE=""
-for C in $(git -C /repo log --format=%H -30); do
+BASE="${MUTANT_BASE:-}"
+[ -z "$BASE" ] && [ -f "$SRC/base" ] && BASE=$(git -C /repo rev-parse "$(cat "$SRC/base")")
+[ -z "$BASE" ] && for C in $(git -C /repo log --format=%H -30); do
   T=$(mktemp -d /tmp/basechk-XXXXXX); rmdir "$T"
   git -C /repo worktree add -q --detach "$T" "$C" 2>/dev/null || continue
   if git -C "$T" apply --check "$SRC/patch.diff" 2>/dev/null; then BASE="$C"; fi
